@@ -367,7 +367,7 @@ func (w *World) oracleBitcoin(bi *BlockInfo) {
 			}
 		}
 		// the recorded fee ceiling is the user's latest request
-		if um, ok := m.UserMax[id]; ok && (cw.Status == bitcointypes.WITHDRAWAL_STATUS_PENDING || cw.Status == bitcointypes.WITHDRAWAL_STATUS_PROCESSING) && cw.MaxTxPrice != um {
+		if um, ok := m.UserMax[id]; ok && (cw.Status == bitcointypes.WITHDRAWAL_STATUS_PENDING || cw.Status == bitcointypes.WITHDRAWAL_STATUS_PROCESSING || cw.Status == bitcointypes.WITHDRAWAL_STATUS_CANCELING) && cw.MaxTxPrice != um {
 			if !w.seenOnce(fmt.Sprintf("usermax:%d:%d", id, um)) {
 				w.violate("C05", "fee-ceiling-not-as-requested", "user-max", "height %d: withdrawal %d (%s) records a maximum of %d sat/byte, the user's latest request is %d", b.Height, id, cw.Status, cw.MaxTxPrice, um)
 			}
